@@ -254,7 +254,7 @@ structure BindInfo where
   name : Str            -- unescaped compiled name (`bind_names` value)
   kind : Kind
   emptyExpr : Str       -- dialect's empty-set expression for this bind (used when expanding to [])
-  deriving Repr
+  deriving DecidableEq, Repr
 
 /-- a parameter value: scalar token or a list of tokens (expanding) -/
 inductive PVal
